@@ -256,8 +256,10 @@ def run(prog, rep, tier):
                   "the ValueError of topological_ordering(A) is swallowed or the call is conditional")
         stores = S3.select("attrstore", qname=f3.qname)
         # attributes stored before an unconditional check are harmless in a constructor: when it raises, no object exists
-        st = [s for s in stores if ("param", "A") in atoms(s.value) and s.attr != "ordering"]
-        rep.check("GATE.anm.stored", bool(st) and all(derives_patternwise(s.value, "A") or s.value[0] == "ext" for s in st),
+        def size_only(v):          # len(A) / A.shape[k]: a size, not the matrix
+            return (v[0] == "ext" and v[1] == "len") or (v[0] == "sub" and v[1][0] == "attr" and v[1][2] == "shape") or (v[0] == "attr" and v[2] == "shape")
+        st = [s for s in stores if ("param", "A") in atoms(s.value) and s.attr != "ordering" and not size_only(s.value)]
+        rep.check("GATE.anm.stored", bool(st) and all(derives_patternwise(s.value, "A") for s in st),
                   fwhere(f3), "the stored matrix is (a copy of) the checked one", "the stored matrix is not the checked one")
     # DRFNet delegates to BayesianNetwork.__init__ with the same graph, first thing
     f4 = need(prog, "sempler.semi.DRFNet.__init__")
